@@ -25,6 +25,22 @@ int verif_thrown;
 
 #define VERIF_ISPOW2(x) ((x) != 0 && (((x) & ((x) - 1)) == 0))
 
+/* quantifier-free "for all k < n" / "exists k < n" over a template constant n <= 5 (expanded by cpp) */
+#define VERIF_ALL_1(P, ...) (P(0, __VA_ARGS__))
+#define VERIF_ALL_2(P, ...) (P(0, __VA_ARGS__) && P(1, __VA_ARGS__))
+#define VERIF_ALL_3(P, ...) (P(0, __VA_ARGS__) && P(1, __VA_ARGS__) && P(2, __VA_ARGS__))
+#define VERIF_ALL_4(P, ...) (P(0, __VA_ARGS__) && P(1, __VA_ARGS__) && P(2, __VA_ARGS__) && P(3, __VA_ARGS__))
+#define VERIF_ALL_5(P, ...) (P(0, __VA_ARGS__) && P(1, __VA_ARGS__) && P(2, __VA_ARGS__) && P(3, __VA_ARGS__) && P(4, __VA_ARGS__))
+#define VERIF_ANY_1(P, ...) (P(0, __VA_ARGS__))
+#define VERIF_ANY_2(P, ...) (P(0, __VA_ARGS__) || P(1, __VA_ARGS__))
+#define VERIF_ANY_3(P, ...) (P(0, __VA_ARGS__) || P(1, __VA_ARGS__) || P(2, __VA_ARGS__))
+#define VERIF_ANY_4(P, ...) (P(0, __VA_ARGS__) || P(1, __VA_ARGS__) || P(2, __VA_ARGS__) || P(3, __VA_ARGS__))
+#define VERIF_ANY_5(P, ...) (P(0, __VA_ARGS__) || P(1, __VA_ARGS__) || P(2, __VA_ARGS__) || P(3, __VA_ARGS__) || P(4, __VA_ARGS__))
+#define VERIF_CAT_(a, b) a##b
+#define VERIF_CAT(a, b) VERIF_CAT_(a, b)
+#define VERIF_ALL(n, P, ...) VERIF_CAT(VERIF_ALL_, n)(P, __VA_ARGS__)
+#define VERIF_ANY(n, P, ...) VERIF_CAT(VERIF_ANY_, n)(P, __VA_ARGS__)
+
 uint8_t nondet_u8(void);
 uint16_t nondet_u16(void);
 uint32_t nondet_u32(void);
